@@ -217,7 +217,7 @@ async def session_op(run, s, op):
         if run.first is None:
             return "no-object"
         await aw(s.refresh(run.first, attribute_names=["v"]))
-        return (run.first.id, run.first.v)
+        return run.first.v  # only what was refreshed: touching another expired attribute is implicit IO (MissingGreenlet by design)
     if op == "exec":
         r = await aw(s.execute(sa.select(T.c.id, T.c.v).where(T.c.id >= sa.bindparam("lo")).order_by(T.c.id), {"lo": 1}))
         return _rows(r.all())
@@ -424,10 +424,13 @@ def run_sync_api(world, scope, pre, ops):
         if pre == "warm":
             _drive_sync(warm_up(eng))
         err = None
-        try:
-            _drive_sync(program(run, eng, scope, ops))
-        except Exception as e:  # noqa
-            err = "!" + type(e).__name__
+        with warnings.catch_warnings(record=True) as caught:
+            warnings.simplefilter("always")
+            try:
+                _drive_sync(program(run, eng, scope, ops))
+            except Exception as e:  # noqa
+                err = "!" + type(e).__name__
+        run.warnings = _warn_set(caught)
         run.error = err
         run.final = world.observe()
         run.snaps["final"] = run.final
@@ -439,6 +442,11 @@ def run_sync_api(world, scope, pre, ops):
     finally:
         eng.dispose()
     return run
+
+
+def _warn_set(caught):
+    return sorted({"%s: %s" % (w.category.__name__, re.sub(r"<.*>", "<obj>", str(w.message))[:160]) for w in caught
+                   if not issubclass(w.category, (DeprecationWarning, ResourceWarning))})
 
 
 def _drive_sync(coro):
@@ -541,8 +549,7 @@ def run_async_api(world, scope, pre, ops, hook_factory=None, wrap_timeout=None, 
                 loop.settle()
             except Exception:  # noqa
                 pass
-        out.warnings = sorted({"%s: %s" % (w.category.__name__, re.sub(r"<.*>", "<obj>", str(w.message))[:160]) for w in caught
-                               if not issubclass(w.category, (DeprecationWarning, ResourceWarning))})
+        out.warnings = _warn_set(caught)
     finally:
         driver.close_all()
         loop.dispose()
@@ -577,5 +584,8 @@ def run_real_aiosqlite(world, scope, pre, ops):
         finally:
             await eng.dispose()
 
-    asyncio.run(main())
+    with warnings.catch_warnings(record=True) as caught:
+        warnings.simplefilter("always")
+        asyncio.run(main())
+    run.warnings = _warn_set(caught)
     return run
